@@ -679,3 +679,12 @@ package gorm
 //@   min-sites 2
 //@   assert one-occurrence-per-bound-value: arg3 == 1 [C01]
 //@   assert rewritten-to-the-neutral-placeholder: arg2 == "?" [C01]
+
+//@ # ---------- C04: Rollback after a failed BEGIN reports the error instead of crashing ----------
+//@ # Begin stores what BeginTx returned even when it failed: a typed-nil transaction. Rollback (the documented manual
+//@ # pattern `tx := db.Begin(); defer tx.Rollback()`) must not call into it.
+//@ site no-rollback-through-a-nil-transaction
+//@   match invoke TxCommitter.Rollback
+//@   in gorm.(*DB).Rollback
+//@   min-sites 1
+//@   assert transaction-object-exists: uf("payloadRef", boxof(recv)) != 0 [C04]
